@@ -24,8 +24,23 @@
     map_mut <k>                              x ↦ x + k
     map_mut_with_index <k>                   x at (i, j) ↦ x + k·(i+1) + j
     map <k> | map_with_index <k>             the allocating forms (the result replaces the matrix)
+    … panic_at=<j>                           on map_mut / map_mut_with_index / map / map_with_index:
+                                             the closure panics on its j-th call (0-based); on
+                                             insert_row_with / insert_column_with: the iterator's
+                                             `next` panics on its j-th call
+                                             An in-place map whose closure panics answers
+                                             `panic RxC storage=consistent cells=old-or-mapped ## len= kind= pattern=<o|m|=…>`:
+                                             obs is what the property demands of the survivor,
+                                             the pattern of mapped cells is aux
+    renumber <b> | fill <v>                  cell (i, j) := b + 100·i + j | every cell := v
+                                             (map_mut_with_index / map_mut ignoring the old value:
+                                             re-synchronises a case after a panicking in-place map)
+    eq_after <op …>                          the operation on a clone, then `matrix == clone` and
+                                             `clone == matrix` → eq=true|false (read-only)
     scalar                                   → val=<v> | panic         (read-only, &self)
     try_into_scalar                          → ok(<v>) | err           (on a clone)
+    row_iter <r> | column_iter <c> | diagonal_iter via=iter|reference_iter
+                                             → vals=<list> | panic     (read-only)
     try <op …>                               the operation on a clone; the matrix itself is kept
 
   Answer: `<ok|panic> <R>x<C> <rows> rm=<row_major_iter> cm=<column_major_iter> ## len=<data.len()> kind=<panic kind>`
@@ -141,10 +156,34 @@ def parseOp (toks : List String) : Option (Matrix.Op Nat) :=
   | "map_mut" :: k :: _ => k.toNat?.map fun k => .mapMut (· + k)
   | "map_mut_with_index" :: k :: _ =>
     k.toNat?.map fun k => .mapMutWithIndex fun x i j => x + k * (i + 1) + j
+  | "renumber" :: b :: _ => b.toNat?.map fun b => .mapMutWithIndex fun _ i j => b + 100 * i + j
+  | "fill" :: v :: _ => v.toNat?.map fun v => .mapMut fun _ => v
   | "map" :: k :: _ => k.toNat?.map fun k => .map (· + k)
   | "map_with_index" :: k :: _ =>
     k.toNat?.map fun k => .mapWithIndex fun x i j => x + k * (i + 1) + j
   | _ => none
+
+/-- operations including the `panic_at=` variants (user code panicking on its j-th call) -/
+def parseXOp (toks : List String) : Option (Matrix.XOp Nat) :=
+  match (optArg "panic_at" toks).bind (·.toNat?) with
+  | none => (parseOp toks).map .op
+  | some j =>
+    match toks with
+    | "map_mut" :: k :: _ => k.toNat?.map fun k => .mapMutPanic (· + k) j
+    | "map_mut_with_index" :: k :: _ =>
+      k.toNat?.map fun k => .mapMutWithIndexPanic (fun x i j' => x + k * (i + 1) + j') j
+    | "map" :: k :: _ => k.toNat?.map fun k => .mapPanic (· + k) j
+    | "map_with_index" :: k :: _ =>
+      k.toNat?.map fun k => .mapWithIndexPanic (fun x i j' => x + k * (i + 1) + j') j
+    | "insert_row_with" :: p :: vs :: _ =>
+      match p.toNat?, parseNatList vs with
+      | some p, some vs => some (.insertRowWithPanic p vs j)
+      | _, _ => none
+    | "insert_column_with" :: p :: vs :: _ =>
+      match p.toNat?, parseNatList vs with
+      | some p, some vs => some (.insertColumnWithPanic p vs j)
+      | _, _ => none
+    | _ => none
 
 /-! printing -/
 
@@ -172,6 +211,51 @@ def answer (panicked : Bool) (rs : Rows Nat) (res : Matrix.Res Nat) : String :=
     | none => ""
   if spec = model then s!"{spec} ## len={res.state.data.length}{kind}"
   else s!"{spec} ## MODEL-SPEC-DISAGREE {model}"
+
+/-- the answer of a read-only list getter: specification first, the model must agree -/
+def showListQuery (spec model : Outcome (List Nat)) : String :=
+  let sp := match spec with
+    | .ok l => s!"vals={showNats l}"
+    | .panic _ => "panic"
+  let md := match model with
+    | .ok l => s!"vals={showNats l}"
+    | .panic k => s!"panic ## kind={k}"
+  if (md.splitOn " ## ").head! = sp then md else s!"{sp} ## MODEL-SPEC-DISAGREE {md}"
+
+/-- The answer to an in-place map whose closure panicked.  `obs`: the survivor has the old size,
+    a storage of rows·columns elements, and every cell holds its old or its mapped value
+    (`inplace_map_panic_obs`); `aux`: which cells were mapped (`xstep_refines`). -/
+def inplacePanicAnswer (old : Rows Nat) (f : Nat → Nat → Nat → Nat) (res : Matrix.Res Nat) : String :=
+  let r := Rows.nrows old
+  let c := Rows.ncols old
+  let spec := s!"panic {r}x{c} storage=consistent cells=old-or-mapped"
+  let new := res.state.toRows
+  let mark (i j : Nat) : Char :=
+    match Rows.cell old i j, Rows.cell new i j with
+    | some o, some n =>
+      if n = o && n = f o i j then '=' else if n = o then 'o' else if n = f o i j then 'm' else '?'
+    | _, _ => '?'
+  let pattern := ";".intercalate ((List.range r).map fun i =>
+    String.ofList ((List.range c).map fun j => mark i j))
+  let modelOk := res.state.rows = r && res.state.columns = c &&
+    res.state.data.length = r * c && !(pattern.toList.contains '?') && res.panic.isSome
+  let kind := match res.panic with
+    | some k => s!" kind={k}"
+    | none => ""
+  if modelOk then s!"{spec} ## len={res.state.data.length}{kind} pattern={pattern}"
+  else s!"{spec} ## MODEL-SPEC-DISAGREE {showModel res.state} pattern={pattern}"
+
+/-- the mapping function of an in-place map with a panicking closure, if the operation is one -/
+def inplaceFn : Matrix.XOp Nat → Option (Nat → Nat → Nat → Nat)
+  | .mapMutPanic f _ => some fun x _ _ => f x
+  | .mapMutWithIndexPanic f _ => some f
+  | _ => none
+
+/-- the answer line of an (extended) operation -/
+def xanswer (st : St) (x : Matrix.XOp Nat) (res : Matrix.Res Nat) : String :=
+  match inplaceFn x, Rows.xpanics st.rs x with
+  | some f, true => inplacePanicAnswer st.rs f res
+  | _, p => answer p (Rows.xnext st.rs x) res
 
 /-- Run a constructor through the code-shaped model (`Ctor.build`) and the specification
     (`Rows.ctorPre`, `Rows.ctorRows`; the rows are only materialised when the precondition holds). -/
@@ -235,6 +319,20 @@ def step (s : State) (toks : List String) : State × String :=
         | .ok v => s!"val={v}"
         | .panic k => s!"panic ## kind={k}"
       (s, if (model.splitOn " ## ").head! = spec then model else s!"{spec} ## MODEL-SPEC-DISAGREE {model}")
+  | "row_iter" :: r :: _ =>
+    match s, r.toNat? with
+    | none, some _ => (s, "no-matrix")
+    | some st, some r => (s, showListQuery (Rows.rowAt st.rs r) (st.m.rowIter r))
+    | _, none => (s, "bad-op")
+  | "column_iter" :: c :: _ =>
+    match s, c.toNat? with
+    | none, some _ => (s, "no-matrix")
+    | some st, some c => (s, showListQuery (Rows.columnAt st.rs c) (st.m.columnIter c))
+    | _, none => (s, "bad-op")
+  | "diagonal_iter" :: _ =>
+    match s with
+    | none => (s, "no-matrix")
+    | some st => (s, showListQuery (.ok (Rows.diagonal st.rs)) st.m.diagonalIter)
   | ["try_into_scalar"] =>
     match s with
     | none => (s, "no-matrix")
@@ -247,19 +345,28 @@ def step (s : State) (toks : List String) : State × String :=
         | .ok none => "err"
         | .panic k => s!"panic ## kind={k}"
       (s, if model = spec then model else s!"{spec} ## MODEL-SPEC-DISAGREE {model}")
-  | "try" :: rest =>
-    match s, parseOp rest with
+  | "eq_after" :: rest =>
+    match s, parseXOp rest with
     | none, some _ => (s, "no-matrix")
-    | some st, some op =>
-      (s, answer (!Rows.pre st.rs op) (Rows.next st.rs op) (Matrix.exec st.m op))
+    | some st, some x =>
+      let res := Matrix.xexec st.m x
+      let spec := decide (st.rs = Rows.xnext st.rs x)
+      let model := Matrix.eqP st.m res.state && Matrix.eqP res.state st.m
+      (s, if spec = model then s!"eq={spec}" else s!"eq={spec} ## MODEL-SPEC-DISAGREE eq={model}")
+    | _, none => (s, "bad-op")
+  | "try" :: rest =>
+    match s, parseXOp rest with
+    | none, some _ => (s, "no-matrix")
+    | some st, some x =>
+      (s, xanswer st x (Matrix.xexec st.m x))
     | _, none => (s, "bad-op")
   | _ =>
-    match s, parseOp toks with
+    match s, parseXOp toks with
     | none, some _ => (s, "no-matrix")
-    | some st, some op =>
-      let res := Matrix.exec st.m op
-      let rs' := Rows.next st.rs op
-      (some ⟨res.state, rs'⟩, answer (!Rows.pre st.rs op) rs' res)
+    | some st, some x =>
+      let res := Matrix.xexec st.m x
+      let rs' := Rows.xnext st.rs x
+      (some ⟨res.state, rs'⟩, xanswer st x res)
     | _, none => (s, "bad-op")
 
 end Driver.C11
